@@ -79,7 +79,9 @@ func scenario(p params, bounds []int) *vexp.Scenario {
 			if p.kill == "asker-zombie" {
 				// the askers are top-level actors: the system's strategy decides about their failures
 				sysOpts = append(sysOpts, vivid.WithActorSystemSupervisionStrategy(vivid.OneForOneStrategy(vivid.SupervisionStrategyDecisionMakerFN(
-					func(vivid.SupervisionContext) (vivid.SupervisionDecision, string) { return vivid.SupervisionDecisionRestart, "scripted" }))))
+					func(vivid.SupervisionContext) (vivid.SupervisionDecision, string) {
+						return vivid.SupervisionDecisionRestart, "scripted"
+					}))))
 			}
 			w := vsys.NewWorld(x, sysOpts...)
 			w.Quiet = true
@@ -178,7 +180,18 @@ func scenario(p params, bounds []int) *vexp.Scenario {
 				w.Sys.Tell(w.Ref("/a1"), vsys.Msg{ID: "boom"})
 				vrt.QuiesceNoTimers() // a1 failed, was to be restarted, its hook failed: it is a zombie now
 			}
-			if p.kill != "none" {
+			if strings.HasPrefix(p.kill, "namesake-") {
+				// nobody dies: while the Asks are pending somebody tries to create another actor under the asker's name and is
+				// refused (the name is taken) / fails in its own OnPrelaunch. The live asker's requests are not concerned.
+				dup := mkAsker("a1")
+				if p.kill == "namesake-prelaunch-fails" {
+					dup = &vsys.Script{Name: "a1", Prelaunch: func(int) error { return fmt.Errorf("scripted prelaunch failure") }}
+				}
+				if _, err := w.SpawnRoot(dup); err == nil {
+					x.Fail("harness", "the namesake of the asker was not refused")
+				}
+				vrt.Yield()
+			} else if p.kill != "none" {
 				w.Sys.Kill(w.Ref("/a1"), false, "driver")
 				vrt.Yield()
 			}
@@ -233,7 +246,7 @@ func scenario(p params, bounds []int) *vexp.Scenario {
 					if pd.inc > 0 {
 						x.Fail("dead-only-if-asker-died", "Ask %s was issued by the actor that took over the name %s after its predecessor had terminated; it is alive, yet its Ask failed with the actor-dead error", pd.id, pd.asker)
 					}
-					if p.kill == "none" || pd.asker != "a1" {
+					if p.kill == "none" || strings.HasPrefix(p.kill, "namesake-") || pd.asker != "a1" {
 						x.Fail("dead-only-if-asker-died", "Ask %s failed with actor-dead but its asker was not killed", pd.id)
 					}
 				default:
@@ -302,6 +315,10 @@ func build(tier string) []*vexp.Scenario {
 	// the asker's name is taken over the moment the predecessor is reported terminated; the successor's Asks are its own
 	for _, rp := range []string{"once", "slow", "never"} {
 		out = append(out, scenario(params{askers: 1, perAsk: 1, replier: rp, timeout: time.Second, kill: "asker-respawn-racing"}, []int{0, 1, 2}))
+		for _, k := range []string{"namesake-refused", "namesake-prelaunch-fails"} {
+			out = append(out, scenario(params{askers: 2, perAsk: 2, replier: rp, timeout: time.Second, kill: k}, bounds))
+			out = append(out, scenario(params{askers: 1, perAsk: 1, replier: rp, timeout: 0, kill: k}, bounds))
+		}
 	}
 	// an Ask whose timer fires while it is being registered, next to a long-lived Ask of the same asker, then the asker dies
 	for _, rp := range []string{"never", "slow"} {
